@@ -86,6 +86,7 @@ class FnContract:
         self.attrs = []
         self.spec = None
         self.prelude = None
+        self.epilogue = None
         self.loops = {}      # n -> (Block, iter_name)
         self.anchors = []    # (where, regex, Block)
         self.tags = set()
@@ -137,10 +138,15 @@ def parse(path):
                 (cur_fn or cur_type).attrs.append(arg)
             elif d == '@field':
                 cur_type.fields.append(arg)
+            elif d == '@fields':
+                cur_block = Block('fields', arg, path, no)
+                cur_type.fields_block = cur_block
             elif d == '@dropderive':
                 cur_type.drop_derive += arg.split()
             elif d == '@spec':
                 cur_block = Block('spec', arg, path, no); cur_fn.spec = cur_block
+            elif d == '@epilogue':
+                cur_block = Block('epilogue', arg, path, no); cur_fn.epilogue = cur_block
             elif d == '@prelude':
                 cur_block = Block('prelude', arg, path, no); cur_fn.prelude = cur_block
             elif d == '@loop':
@@ -172,6 +178,10 @@ def parse(path):
             cur_block.lines.append((raw, no))
         elif raw.strip() and not raw.lstrip().startswith('#'):
             raise ValueError('%s:%d text outside a block: %r' % (path, no, raw))
+    for t in fs.types.values():
+        fb = getattr(t, 'fields_block', None)
+        if fb is not None:
+            t.fields.append(fb.text())
     # tags
     for fn in fs.fns.values():
         for b in [fn.spec, fn.prelude] + [x[0] for x in fn.loops.values()]:
